@@ -92,6 +92,14 @@ func heldAt(fn *ssa.Function, mu *types.Var, heldAtEntry bool) map[ssa.Instructi
 }
 
 func runC03(w *World, r *Report) {
+	// ---- visits-all: every submitted / completed task and every target channel is processed
+	r.Rule("C03.visits-all", "the loops over tasks, completed tasks, written channels and ready channels in the scheduler are left only when exhausted or with an error", 8)
+	ruleLoopsTotal(w, r, "C03.visits-all", []*ssa.Function{
+		w.Fn("compose", "taskManager.submit"), w.Fn("compose", "taskManager.waitAll"), w.Fn("compose", "runner.resolveCompletedTasks"),
+		w.Fn("compose", "runner.createTasks"), w.Fn("compose", "channelManager.updateValues"), w.Fn("compose", "channelManager.updateDependencies"),
+		w.Fn("compose", "channelManager.getFromReadyChannels"), w.Fn("compose", "channelManager.reportBranch"), w.Fn("compose", "runner.calculateNextTasks"),
+	}, map[string]string{}, "a started node is never collected, a completed task's output is never delivered, or a ready node is never scheduled")
+
 	tm := w.Named("compose", "taskManager")
 	fMu := w.Field("compose", "taskManager", "mu")
 	fL := w.Field("compose", "taskManager", "l")
